@@ -92,7 +92,7 @@ func c08(r *mon.Run) {
 		add(n, window(n, 2), 7)
 		add(n, window(n, 1), 8)
 	}
-	bounds := []string{"", "0", "1", "-1", "2", "-2", "2147483647", "-2147483647", "2147483648", "-2147483648",
+	bounds := []string{"", "0", "1", "-1", "2", "-2", "127", "128", "129", "-128", "-129", "255", "256", "-256", "32767", "32768", "-32769", "65535", "65536", "2147483647", "-2147483647", "2147483648", "-2147483648",
 		"9223372036854775806", "-9223372036854775806", "9223372036854775807", "-9223372036854775807", "-9223372036854775808"}
 	for _, n := range []int{0, 1, 2, 3, 5} {
 		v := append([]string{}, bounds...)
